@@ -1550,6 +1550,9 @@ pub fn c18_scenarios(ns: &[u64]) -> Vec<Scn> {
                         if fname == "add-stream+sibling-recv-then-send" && (probe == "recv" || st == St::One) {
                             continue; // the window only exists for a sender on a full ring
                         }
+                        if fname.starts_with("add-stream+sibling") && (n != 1 || w != WaitK::Busy) {
+                            continue; // three threads: keep the quick tier quick
+                        }
                         let mut s = Scn::new(&name(&format!("c18-solo-vs-{}[{:?}]", fname, st), probe), cfg);
                         s.prefix = pre.clone();
                         if probe == "send2" {
@@ -1983,7 +1986,12 @@ pub fn tasks(prop: &str, tier: Tier) -> Vec<Task> {
                 WaitK::Block(1, 1),
             ];
             if thorough {
-                push_all(&mut t, c08_scenarios(ns_t, &wt), true);
+                // (N = 4 and c = 5 over nine wait configurations did not finish in
+                // twenty minutes)
+                push_all(&mut t, c08_scenarios(ns_q, &wt), true);
+                for x in t.iter_mut() {
+                    x.c = x.c.min(4);
+                }
                 for s in c08_scenarios(ns_q, &[WaitK::Default, WaitK::Yield(50, 50)]) {
                     t.push(task_sh(s, 1, 4));
                 }
@@ -2023,7 +2031,15 @@ pub fn tasks(prop: &str, tier: Tier) -> Vec<Task> {
             for s in fut_matrix_scenarios(if thorough { ns_q } else { &[1] }) {
                 // blocking points (parks) are free choices, so even bound 0 covers
                 // every order in which the tasks run until they park or finish
-                t.push(task_sh(s, if thorough { 1 } else { 0 }, if thorough { 8 } else { 1 }));
+                let mut tk = task_sh(s, if thorough { 1 } else { 0 }, if thorough { 8 } else { 1 });
+                if thorough {
+                    // one preemption on top of the yield allowance: the [Full] / N = 2
+                    // scenarios have millions of such schedules; each shard stops
+                    // after 60 000 (reported as a cap, the tier is then not called
+                    // exhaustive)
+                    tk.cap = 60_000;
+                }
+                t.push(tk);
             }
             {
                 // the move-out futures flavour (default spin counts only)
